@@ -117,10 +117,11 @@ theorem sized_evalGradPsiHat {n m : Nat} {P : Problem α} (hP : ProblemSized n m
   ⟨h.x, h.g, h.xhat, h.p, h.yhat, fun _ => hP.gradL _ _ h.xhat h.yhat⟩
 
 theorem sized_of_core {n m : Nat} {a b : Iterate α} (hc : core a = core b) (hb : Sized n m b)
+    (hy : a.yhat.length = m)
     (hgh : a.haveGradHat = true → a.gradPsiHat.length = n) : Sized n m a :=
   ⟨by rw [x_of_core hc]; exact hb.x, by rw [gradPsi_of_core hc]; exact hb.g,
    by rw [xhat_of_core hc]; exact hb.xhat, by rw [p_of_core hc]; exact hb.p,
-   by rw [yhat_of_core hc]; exact hb.yhat, hgh⟩
+   hy, hgh⟩
 
 theorem takeSafeStep_sized {n m : Nat} {P : Problem α} (hP : ProblemSized n m P) (c nx : Iterate α)
     (t : Nat) (h : Sized n m c) :
@@ -458,11 +459,15 @@ theorem iterBody_reach {n m : Nat} {P : Problem α} (hP : ProblemSized n m P) (d
 theorem headStep_sized {n m : Nat} {P : Problem α} (hP : ProblemSized n m P) (pr : Params α)
     (stop : Nat → Bool) (oot : Bool) (s : St α D) (h : Sized n m s.curr) :
     Sized n m (headStep P pr stop oot s).1.curr := by
-  unfold headStep
-  simp only []
+  have hy : Sized n m (headEvalYhat P pr s.curr).1 := by
+    unfold headEvalYhat
+    split_ifs
+    · exact ⟨h.x, h.g, h.xhat, h.p, hP.psi_yhat _ h.xhat, h.gh⟩
+    · exact h
+  rw [(headStep_curr P pr stop oot s).1]
   split_ifs
-  · exact sized_evalGradPsiHat hP _ h
-  · exact h
+  · exact sized_evalGradPsiHat hP _ hy
+  · exact hy
 
 theorem headStep_d (P : Problem α) (pr : Params α) (stop : Nat → Bool) (oot : Bool) (s : St α D) :
     (headStep P pr stop oot s).1.d = s.d ∧ (headStep P pr stop oot s).1.k = s.k := by
@@ -521,18 +526,18 @@ theorem exitBlock_sized {n m : Nat} {P : Problem α} (hP : ProblemSized n m P) (
   unfold exitBlock
   simp only []
   cases hw : (status == .Converged || status == .Interrupted || pr.alwaysOverwrite) <;>
-  cases hea : pr.eagerGradientEval <;>
+  cases hea : s.yhatValid <;>
   simp only [Bool.and_true, Bool.and_false, Bool.false_and, Bool.true_and, if_true, if_false,
-    Bool.false_eq_true]
+    Bool.false_eq_true, Bool.not_true, Bool.not_false]
   · exact ⟨hx0, hy, he⟩
   · exact ⟨hx0, hy, he⟩
-  · refine ⟨h.xhat, h.yhat, ?_⟩
-    split_ifs
-    · rw [vdiv_length, vsub_length, h.yhat, hy, hS]; simp
-    · exact he
   · refine ⟨h.xhat, hP.psi_yhat _ h.xhat, ?_⟩
     split_ifs
     · rw [vdiv_length, vsub_length, hP.psi_yhat _ h.xhat, hy, hS]; simp
+    · exact he
+  · refine ⟨h.xhat, h.yhat, ?_⟩
+    split_ifs
+    · rw [vdiv_length, vsub_length, h.yhat, hy, hS]; simp
     · exact he
 
 theorem mainLoop_sized {n m : Nat} {P : Problem α} (hP : ProblemSized n m P) (dir : Direction D α)
